@@ -87,6 +87,13 @@ def oracle_exact(As, rank, tol):
             p = perm[m]
             d = R[p][p]
             M["piv"].append(d)
+            if d == 0:
+                # the member is already factorized exactly (all remaining residual diagonal entries are <= 0 = max): the current
+                # code (clamp + mask, fix d829792) writes a ZERO column and leaves the diagonal alone
+                M["cols"].append([Fraction(0)] * n)
+                if m + 1 < n:
+                    M["err"] = sum(abs(R[perm[j]][perm[j]]) for j in range(m + 1, n)) / M["orig"]
+                continue
             sq = is_square(d) if d > 0 else None
             if sq is None or not dyadic(sq):
                 ok = False
@@ -320,6 +327,35 @@ def run(chk, only=None):
                             continue
                         As, m_spec, mem = g
                         exact_case(chk, cell, As, rank, tname, tolv, tol_eff, m_spec, mem, lines, handlers, viol, nb, n)
+    # heterogeneous batches: members of DIFFERENT rank and scale in one coupled loop (shared counter, max-over-batch stop test):
+    # a converged member keeps iterating while another member keeps the loop alive (zero columns after fix d829792)
+    for (nb, n) in ([(2, 3), (2, 4), (3, 3), (3, 4)] if quick else [(2, 3), (2, 4), (3, 3), (3, 4), (2, 5), (3, 5), (4, 3), (2, 6)]):
+        for tname, tolv in tols:
+            for rep in range(1 if quick else 3):
+                cell = f"C10/pc/exact/hetero/b={nb}/tol={tname}"
+                if only and only != cell:
+                    continue
+                rank = chk.rng.randint(2, n + 1)
+                rhos = [chk.rng.randint(1, n) for _ in range(nb)]
+                rhos[chk.rng.randrange(nb)] = n
+                if len(set(rhos)) == 1:
+                    rhos[(rhos.index(n) + 1) % nb] = chk.rng.randint(1, n - 1)
+                tol_eff = Fraction(str(dyn["preconditioner_tolerance"])) if tolv is None else tolv
+                scales = [chk.rng.choice([1, 1, 4, Fraction(1, 4), 16]) for _ in range(nb)]
+                g = None
+                for _ in range(200):
+                    As = [[[v * scales[i] for v in row] for row in gen_exact_member(chk.rng, n, rhos[i], "dom")] for i in range(nb)]
+                    if any(max(A[i][i] for i in range(n)) <= 0 for A in As):
+                        continue
+                    m_spec, mem, ok = oracle_exact(As, rank, tol_eff)
+                    if ok:
+                        g = (As, m_spec, mem)
+                        break
+                if g is None:
+                    chk.count("exact_generation_failed")
+                    continue
+                chk.count("pc_hetero")
+                exact_case(chk, cell, g[0], rank, tname, tolv, tol_eff, g[1], g[2], lines, handlers, viol, nb, n, hetero=True)
     # mixed ranks in one batch: the converged member keeps pivoting on an exactly zero residual
     for n in ([3, 4] if quick else [3, 4, 5]):
         cell = "C10/pc/exact/batch-mixed-rank"
@@ -333,6 +369,12 @@ def run(chk, only=None):
     permutation_cases(chk, only, lines, handlers, viol, quick)
     # ---- 3d. preconditioner
     precond_cases(chk, only, lines, handlers, viol, quick, dyn)
+    # ---- 3e. multi-step histories on one operator object / one shared kernel object under changing settings
+    from . import c10_hist
+    c10_hist.history_cases(chk, only, lines, handlers, viol, quick)
+    # ---- 3f. backward pass (gradient through the factor) vs dense autograd of an independent reference + finite differences
+    from . import c10_back
+    c10_back.backward_cases(chk, only, viol, quick)
 
     import os
     if os.environ.get("C10_DUMP"):
@@ -351,7 +393,7 @@ def call_pc(op, rank, tolv):
     return op.pivoted_cholesky(rank, error_tol=float(tolv), return_pivots=True)
 
 
-def exact_case(chk, cell, As, rank, tname, tolv, tol_eff, m_spec, mem, lines, handlers, viol, nb, n):
+def exact_case(chk, cell, As, rank, tname, tolv, tol_eff, m_spec, mem, lines, handlers, viol, nb, n, hetero=False):
     from linear_operator.operators import DenseLinearOperator
     dt = torch.float64 if chk.rng.random() < 0.7 else torch.float32
     T = torch.tensor([[[float(v) for v in row] for row in A] for A in As], dtype=dt)
@@ -406,6 +448,34 @@ def exact_case(chk, cell, As, rank, tname, tolv, tol_eff, m_spec, mem, lines, ha
         if bad:
             viol(cell, f"{bad[0][0]}: {bad[0][1]}", payload)
             got_ok = False
+    if got_ok and nb > 1 and (hetero or chk.rng.random() < 0.5):
+        # batched semantics: every member is its own single-member run, continued (pcM_batch_member_is_own_run_continued);
+        # once a member has converged exactly its extra columns are zero (pcM_converged_member_zero_columns)
+        for b in range(nb):
+            try:
+                Lb, pb = call_pc(DenseLinearOperator(T[b].clone()), rank, tolv)
+            except Exception as e:
+                viol(cell, f"exception {type(e).__name__}: {str(e)[:200]} on member {b} alone", payload)
+                got_ok = False
+                break
+            rb = Lb.shape[-1]
+            mb, memb, okb = oracle_exact([As[b]], rank, tol_eff)
+            chk.count("pc_member_alone")
+            if rb < r:
+                chk.count("pc_member_stops_before_batch")
+            if rb != mb or rb > r or not torch.equal(Lb.double(), Lf[b][:, :rb]) or pb.tolist()[:rb] != pf[b].tolist()[:rb]:
+                viol(cell, f"member {b} of the batch: alone it runs r_b={rb} iterations (exact: {mb}), in the batch r={r}; its first r_b columns/pivots in the "
+                           f"batch must be its single-member factor: alone pivots {pb.tolist()} L={Lb.tolist()}, in the batch pivots {pf[b].tolist()} L={Lf[b].tolist()}", payload)
+                got_ok = False
+                break
+            converged = all(memb[0]["R"][i][i] == 0 for i in range(n))
+            if converged and rb < r:
+                chk.count("pc_member_extra_zero_cols")
+                if float(Lf[b][:, rb:].abs().max()) != 0.0 or pf[b].tolist() != pb.tolist():
+                    viol(cell, f"member {b} is factorized exactly after {rb} iterations; the {r - rb} extra columns it gets while the rest of the batch "
+                               f"keeps the loop running must be zero and its pivots unchanged: L={Lf[b].tolist()} pivots {pf[b].tolist()} (alone {pb.tolist()})", payload)
+                    got_ok = False
+                    break
     # model line
     lines.append(f"pc rat {rank} {fmt_rat(tol_eff)} " + "|".join(mat_line(A) for A in As))
 
@@ -910,5 +980,20 @@ def replay(chk, payload):
         def viol(c, what, pl):
             chk.violation(c, what, pl)
         exact_case(chk, cell, As, p["rank"], "replay", tolv, tol_eff, m, mem, lines, handlers, viol, len(As), len(As[0]))
+        return
+    if p.get("kind") in ("hist", "hist-precond"):
+        from . import c10_hist
+        As = [[[Fraction(v) for v in row] for row in A] for A in p["A"]]
+        lines, handlers = [], []
+
+        def viol(c, what, pl):
+            chk.violation(c, what, pl)
+        if p["kind"] == "hist":
+            c10_hist.pc_history_run(chk, cell, p["opkind"], p["order"], As, p["rank"], Fraction(p["loose"]),
+                                    None if p["tight"] is None else Fraction(p["tight"]),
+                                    torch.float32 if "32" in p["dtype"] else torch.float64, tuple(p["bshape"]), lines, handlers, viol)
+        else:
+            cfgs = [(a, None if b is None else Fraction(b)) for a, b in p["cfgs"]]
+            c10_hist.precond_history_run(chk, cell, p["opkind"], p["dkind"], As, cfgs, p["noises"], p["first_direct"], lines, handlers, viol)
         return
     run(chk, only=cell)
